@@ -231,6 +231,69 @@ fn cli_case(t0: &mut Tape, w: &Worker) -> CaseResult {
     Ok(out)
 }
 
+/// views: the same view output under every schedule (no fatal error in the input)
+fn view_case(t0: &mut Tape, w: &Worker) -> CaseResult {
+    let mut ot = t0.fork(64);
+    let mut out = CaseOut::default();
+    let cs = gen::gen_conf_stream(t0, &ConfOpts { max_links: 6, min_links: 2, big_16: 3, ..Default::default() });
+    let (bytes, _lay) = cs.stream.encode();
+    let view: Vec<String> = match ot.below(3) {
+        0 => vec!["view".into(), "rdh".into()],
+        1 => vec!["view".into(), "its-readout-frames".into()],
+        _ => vec!["view".into(), "its-readout-frames-data".into()],
+    };
+    let styled = ot.chance(1, 2);
+    let stdin = ot.chance(1, 2);
+    let k_runs = w.tier.pick(5, 16);
+    let mut first: Option<(Vec<u8>, Option<i32>)> = None;
+    let mut execs = 0;
+    for k in 0..k_runs {
+        let mut args = view.clone();
+        if !styled {
+            args.push("-d".into());
+        }
+        let data = std::sync::Arc::new(bytes.clone());
+        let input = if stdin {
+            Input::Pipe(data, 4096)
+        } else {
+            let p = w.write("in.raw", &bytes);
+            args.insert(0, p.display().to_string());
+            Input::File(p)
+        };
+        let mut spec = RunSpec::new(args, input);
+        let trace = w.path("trace");
+        spec.env = sched_env(&mut ot, k, &trace);
+        spec.timeout = std::time::Duration::from_secs(60);
+        let o = cli::run(&w.cli, &spec);
+        execs += 1;
+        if o.timed_out || o.crash_signature().is_some() || cli::has_fatal(&o.stderr) {
+            out.labels.push("skipped:crash_timeout_or_fatal".into());
+            return Ok(out);
+        }
+        match &first {
+            None => first = Some((o.stdout.clone(), o.code)),
+            Some((so, code)) => {
+                if *so != o.stdout || *code != o.code {
+                    return Err(Fail::new(
+                        format!("C05:schedule-dependent:view-output:{}", view[1]),
+                        format!("run {k} of `{}` prints different output than run 0 ({} vs {} bytes)", view.join(" "), o.stdout.len(), so.len()),
+                        json!({"view": view, "styled": styled, "stdin": stdin, "env": spec.env, "input": input_detail(&bytes)}),
+                    ));
+                }
+            }
+        }
+    }
+    out.labels.push(format!("view:{}", view[1]));
+    out.labels.push(if stdin { "src:pipe(4 KiB chunks)".into() } else { "src:file".into() });
+    out.nontrivial = cs.stream.links.len() >= 2;
+    out.fingerprint = fnv64(&bytes) ^ fnv64(view[1].as_bytes());
+    out.execs = execs;
+    if w.take_sample() {
+        out.sample = Some(json!({"view": view, "runs": k_runs, "bytes": bytes.len(), "links": cs.stream.links.len()}));
+    }
+    Ok(out)
+}
+
 pub fn build() -> Property {
     Property {
         id: "C05",
@@ -244,7 +307,13 @@ pub fn build() -> Property {
             "WARN records are printed live by worker threads and are not part of the comparison".into(),
             "no error cap and no fatal input error (the statement's own proviso)".into(),
         ],
-        phases: vec![Phase {
+        phases: vec![
+            Phase {
+                name: "view_schedules",
+                kind: PhaseKind::Gen { cases: (240, 1200), tape_len: 64 + 64 + 2000 + 6 * 4000 + 14000, f: Box::new(view_case) },
+                threads: 8,
+            },
+            Phase {
             name: "cli_schedules",
             kind: PhaseKind::Gen {
                 cases: (480, 2000),
